@@ -80,6 +80,7 @@ def run(ctx):
         ctx.coverage.update({"evaluations": 0})
         return
     summaries, digests, mism_total, evals, hist = {}, {}, 0, 0, {}
+    wf_checked = wf_false = 0
     first_out = None
     import concurrent.futures as cf
     with cf.ThreadPoolExecutor(max_workers=len(procs_list)) as ex:
@@ -110,6 +111,10 @@ def run(ctx):
         m = re.search(r"CASES (\d+) MISMATCHES (\d+)", mlog)
         mism = int(m.group(2)) if m else -1
         mism_total += abs(mism)
+        w = re.search(r"WFCHECKED (\d+) WFFALSE (\d+)", mlog)
+        if w:
+            wf_checked += int(w.group(1))
+            wf_false += int(w.group(2))
         if ctx.replay:
             print(mlog)
         if mism != 0 and not summ["propfail"]:
@@ -162,6 +167,8 @@ def run(ctx):
                 "(hash of its Markdown + DBC) in which at least one bus lists two definitions / messages with a tied sort key",
         "distribution": hist,
         "model_mismatches": mism_total,
+        "wf_net_hypothesis": "wf_netb (proved sound for wf_net) evaluated by the driver on %d raw networks dumped through the getters "
+                             "(initial and post-history states): false on %d" % (wf_checked, wf_false),
         "property_predicate_failures": sorted(set(k for s in summaries.values() for k in s["propfail"])),
         "samples": s0["samples"][:2],
         "exhaustive": False,
